@@ -8,7 +8,7 @@ c = json.loads((d / "confirm.json").read_text())
 meta = {"property": sys.argv[1][:3], "change": sys.argv[2], "needs_to_manifest": sys.argv[3],
         "confirmed": dict(how="tools/confirm_seeded.sh in a scratch worktree of /repo: patch applied -> cargo test --workspace "
                               "--no-fail-fast --offline (all pass); demo as tests/demo_seeded.rs fails with the patch and passes without it", **c),
-        "origin": "written by an independent sub-agent given only the property text (second round, told which ideas were already used)"}
+        "origin": "written by an independent sub-agent given only the property text (given only the property text and a scratch worktree)"}
 if len(sys.argv) > 4:
     meta["note"] = sys.argv[4]
 (d / "meta.json").write_text(json.dumps(meta, indent=1) + "\n")
